@@ -189,6 +189,64 @@ func (cs *ckServer) addNamespace(base string, P int, hosted []int, gidBase int) 
 	return nil
 }
 
+// ckStartCluster starts n servers in this process that form ONE raft group (namespace
+// default-0, n replicas).
+func ckStartCluster(dir, eng string, n int) ([]*server.Server, error) {
+	ports, err := ckFreePorts(4 * n)
+	if err != nil {
+		return nil, err
+	}
+	var seeds []node.ReplicaInfo
+	for i := 0; i < n; i++ {
+		seeds = append(seeds, node.ReplicaInfo{NodeID: uint64(1 + i), ReplicaID: uint64(1 + i),
+			RaftAddr: "http://127.0.0.1:" + strconv.Itoa(ports[i*4+2])})
+	}
+	var kvs []*server.Server
+	for i := 0; i < n; i++ {
+		d := path.Join(dir, strconv.Itoa(i))
+		os.MkdirAll(d, 0755)
+		ioutil.WriteFile(path.Join(d, "myid"), []byte(strconv.Itoa(1+i)), common.FILE_PERM)
+		conf := server.ServerConfig{ClusterID: "verif", DataDir: d, RedisAPIPort: ports[i*4], HttpAPIPort: ports[i*4+1],
+			GrpcAPIPort: ports[i*4+3], ProfilePort: -1, LocalRaftAddr: seeds[i].RaftAddr, BroadcastAddr: "127.0.0.1",
+			TickMs: 20, ElectionTick: 20}
+		conf.RocksDBOpts.EngineType = eng
+		kv, err := server.NewServer(conf)
+		if err != nil {
+			return kvs, err
+		}
+		nc := node.NewNSConfig()
+		nc.Name, nc.BaseName, nc.EngType, nc.PartitionNum, nc.Replicator = "default-0", "default", rockredis.EngType, 1, n
+		nc.SnapCount, nc.SnapCatchup = 1000000, 500000
+		nc.RaftGroupConf.GroupID = 1000
+		nc.RaftGroupConf.SeedNodes = seeds
+		nc.ExpirationPolicy = common.WaitCompactExpirationPolicy
+		nc.DataVersion = common.ValueHeaderV1Str
+		if _, err := kv.InitKVNamespace(uint64(1+i), nc, false); err != nil {
+			return kvs, err
+		}
+		kv.Start()
+		kvs = append(kvs, kv)
+	}
+	return kvs, nil
+}
+
+// ckLeaderOf returns the index of the server whose replica of default-0 leads (-1: none in time).
+func ckLeaderOf(kvs []*server.Server, wait time.Duration) int {
+	deadline := time.Now().Add(wait)
+	for {
+		for i, kv := range kvs {
+			n := kv.GetNamespaceFromFullName("default-0")
+			if n != nil && n.IsReady() && n.Node.IsLead() {
+				return i
+			}
+		}
+		if time.Now().After(deadline) {
+			return -1
+		}
+		time.Sleep(20 * time.Millisecond)
+	}
+}
+
 // waitLeaders waits until every hosted partition has elected itself.
 func (cs *ckServer) waitLeaders(d time.Duration) error {
 	deadline := time.Now().Add(d)
